@@ -154,6 +154,10 @@ def run(ctx) -> None:
              "appends to / rewrites that list (a shallow copy shares the list)")
     ctx.rule("C05.R8-instances-matched-by-full-id", "the instances collected for a placeholder (its 'represents' list and 'latest') are selected "
              "by the placeholder's stage AND blueprint name: both components of the placeholder id flow into the selection")
+    ctx.rule("C05.R9-only-earlier-stages-are-frozen", "the controller marks a placeholder as FINISHED without observing it (restart) only for stages "
+             "STRICTLY before the stage the run starts from: a placeholder that is not RUNNING is skipped by the graph when further "
+             "iterations are instantiated, so freezing the placeholder of a loop that still iterates leaves 'latest' and 'represents' at the "
+             "instance of the restart")
     ctx.rule("C05.R6-state-from-latest", "currentCondition/currentIteration derive from the instance with the numerically highest iteration")
 
     mods = [ctx.repo.module(r) for r in SCOPE]
@@ -552,6 +556,48 @@ def run(ctx) -> None:
            construct="dw['state'] = {currentCondition, currentIteration} from latest")
 
     check_placeholder_match(ctx, g)
+    check_frozen_placeholders(ctx, ctx.repo.module(CONTROL))
+
+
+def check_frozen_placeholders(ctx, ctl) -> None:
+    rule = "C05.R9-only-earlier-stages-are-frozen"
+    n = 0
+    for q, f in ctl.functions.items():
+        if q.count(".") > 1 and not any(isinstance(x, ast.Subscript) and "_placeholders" in source.src(x) for x in ast.walk(f)):
+            continue
+        stores = [a for a in source.walk_own(f) if isinstance(a, ast.Assign) and len(a.targets) == 1 and isinstance(a.targets[0], ast.Subscript)
+                  and "_placeholders" in source.src(a.targets[0]) and isinstance(a.targets[0].slice, ast.Constant) and a.targets[0].slice.value == "state"
+                  and (dotted(a.value) or "").split(".")[-1] in ("FINISHED_STATE", "SHUTDOWN_STATE", "FAILED_STATE")]
+        if not stores:
+            continue
+        cfg = CFG(f)
+        ctx.analysed(f)
+
+        def earlier_label(t: ast.AST) -> Optional[str]:
+            """edge label on which <x>.stageIndex is strictly below the starting stage"""
+            cp = match.compare_parts(t)
+            if not cp:
+                return None
+            l, op, r = cp
+            is_stage = lambda e: isinstance(e, ast.Attribute) and e.attr in ("stageIndex", "index") or (isinstance(e, ast.Name) and "stage" in e.id.lower())
+            is_start = lambda e: "starting" in source.src(e).lower() or "initial_stage" in source.src(e).lower()
+            if is_stage(l) and is_start(r):
+                return {ast.Lt: "T", ast.GtE: "F"}.get(type(op))
+            if is_start(l) and is_stage(r):
+                return {ast.Gt: "T", ast.LtE: "F"}.get(type(op))
+            return None
+        tests = match.test_nodes(cfg, earlier_label)
+        for st in stores:
+            n += 1
+            nodes = [nd for nd in cfg.nodes if nd.kind == "stmt" and nd.ast is st]
+            ok = bool(tests) and bool(nodes) and all(match.only_via_edges(cfg, nd, tests) for nd in nodes)
+            ctx.ob(rule, st, ok,
+                   "%s freezes a placeholder only for stages strictly before the starting stage" % q if ok else
+                   "%s marks a placeholder as finished without a strict 'stage < starting stage' test on the way: on a restart AT the stage of a "
+                   "loop that still iterates, the placeholder is frozen, _discover_dowhile_placeholders skips it from then on, and a reference "
+                   "from outside the loop resolves to the instance that was latest at the restart - ':loopref' omits every later instance" % q,
+                   construct="%s: _placeholders[..]['state'] = <final> <- stage < starting stage" % q)
+    ctx.floor(rule, n, 1, "direct final-state marks of DoWhile placeholders in the controller")
 
 
 def check_placeholder_match(ctx, g) -> None:
